@@ -71,6 +71,9 @@ from deep.config.config_service import ConfigService
 cfg = ConfigService(config)
 '''
 
+MODULE_DUNDERS = ['__builtins__', '__cached__', '__doc__', '__file__', '__loader__', '__name__', '__package__', '__path__',
+                  '__spec__']
+
 LOOKUP_LEAN = '''/-- `ConfigService(custom).<name>` in an interpreter started under `env` — reading of the checked shape of
     `__getattribute__`: an attribute the object has of its own wins (opaque here); else the custom dict when it has
     the name with a value other than `None`; else the `deep.config` module attribute when there is one; else
@@ -206,7 +209,7 @@ def generate():
         f'({lean_str(f.name)}, fn_{f.name})' for f in funcs) + ']\n')
     parts.append('/-- other attributes of the module object (imports, sub-modules) -/\n'
                  'def moduleOtherNames : List String := [' + ', '.join(lean_str(o) for o in sorted(set(
-                     others + ['config_service', 'tracepoint_config']))) + ']\n')
+                     others + ['config_service', 'tracepoint_config'] + MODULE_DUNDERS))) + ']\n')
     parts.append('''/-- `getattr(deep.config, name)` in an interpreter started under `env` (`none` = no such attribute) -/
 def moduleValue (env : Env) (execPrefix : String) (name : String) : Option CVal :=
   match moduleDefaults.find? (fun d => d.1 == name) with
@@ -237,7 +240,8 @@ def moduleValue (env : Env) (execPrefix : String) (name : String) : Option CVal 
         raise Untranslatable('ConfigService.__getattribute__ changed shape')
     if not same_shape(find_def(svc, 'ConfigService.__setattr__'), 'super().__setattr__(name, value)'):
         raise Untranslatable('ConfigService.__setattr__ changed shape')
-    own += ['__class__', '__dict__', '__doc__', '__module__', '__init__']
+    # what every object / class instance has besides (C19-2: the lookup chain is only reached for other names)
+    own += sorted(set(dir(object)) | {'__dict__', '__module__', '__weakref__', '__doc__', '__annotations__'})
     parts.append('/-- attribute names a ConfigService object has of its own (methods, properties, instance attributes) -/\n'
                  'def ownNames : List String := [' + ', '.join(lean_str(o) for o in sorted(set(own))) + ']\n')
     parts.append(LOOKUP_LEAN)
@@ -296,6 +300,40 @@ def moduleValue (env : Env) (execPrefix : String) (name : String) : Option CVal 
     parts.append('/-- does RepeatedTimer coerce its interval with float()? (text from the environment otherwise reaches\n'
                  '    the arithmetic of `_time` and kills the timer thread with a TypeError) -/\n'
                  f'def timerCoercesWithFloat : Bool := {coerces}\n')
+
+    # ---- str2bool and its two use sites
+    sb = find_def(ut, 'str2bool')
+    rets = [x for x in strip_doc(sb.body) if isinstance(x, ast.Return)]
+    if len(rets) != 1 or not isinstance(rets[0].value, ast.Compare) or len(rets[0].value.ops) != 1 \
+            or not isinstance(rets[0].value.ops[0], ast.In) or not isinstance(rets[0].value.comparators[0], ast.Tuple):
+        raise Untranslatable('str2bool changed shape')
+    left = ast.unparse(rets[0].value.left)
+    if left == 'str(string).lower()':
+        sbc = 'true'
+    elif left == 'string.lower()':
+        sbc = 'false'
+    else:
+        raise Untranslatable('str2bool tests ' + left)
+    truthy = [e.value for e in rets[0].value.comparators[0].elts
+              if isinstance(e, ast.Constant) and isinstance(e.value, str)]
+    if len(truthy) != len(rets[0].value.comparators[0].elts):
+        raise Untranslatable('str2bool truthy texts')
+    gs = load('src/deep/grpc/grpc_service.py')
+    gi = [ast.unparse(x) for x in strip_doc(find_def(gs, 'GRPCService.__init__').body)]
+    gst = strip_doc(find_def(gs, 'GRPCService.start').body)
+    if 'self._secure = config.SERVICE_SECURE' not in gi or not gst or not isinstance(gst[0], ast.If) \
+            or ast.unparse(gst[0].test) != 'str2bool(self._secure)':
+        raise Untranslatable('GRPCService no longer decides with str2bool(config.SERVICE_SECURE)')
+    pl = load('src/deep/api/plugin/__init__.py')
+    if not same_shape(find_def(pl, 'Plugin.is_active'),
+                      "attr = getattr(self.config, f'plugin_{self.name}'.upper(), 'True')\n"
+                      "if attr is None:\n    return True\nreturn str2bool(attr)"):
+        raise Untranslatable('Plugin.is_active changed shape')
+    parts.append('/-- the texts `str2bool` reads as true (after lower-casing) -/\n'
+                 'def truthyTexts : List String := [' + ', '.join(lean_str(t) for t in truthy) + ']\n')
+    parts.append('/-- does str2bool convert its argument with str() first? (otherwise a bool/number given in code raises\n'
+                 '    AttributeError at the use sites GRPCService.start and Plugin.is_active) -/\n'
+                 f'def str2boolCoercesWithStr : Bool := {sbc}\n')
 
     # ---- documented keys
     doc = open(os.path.join(pylean.REPO, DOC), encoding='utf-8').read()
